@@ -87,16 +87,16 @@ partial def parseSteps : Nat → List String → Option (List Step)
     some (.glob tp cfg rd forest :: rest)
   | _, _ => none
 
-def runSteps (sorted : Bool) (d : Defaults) : List Step → TNode → List Path → Except Err (TNode × List Path)
-  | [], t, l => .ok (t, l)
+def runSteps (sorted : Bool) (d : Defaults) : List Step → TNode → List Path → Option (TNode × List Path)
+  | [], t, l => some (t, l)
   | .add e extra :: rest, t, l =>
       match addPath d e extra e.path t with
-      | .error err => .error err
-      | .ok t' => runSteps sorted d rest t' (if e.hard then e.path :: l else l)
+      | none => none
+      | some t' => runSteps sorted d rest t' (if e.hard then e.path :: l else l)
   | .glob target cfg rootDev forest :: rest, t, l =>
       match globInto sorted d cfg globMatch rootDev forest target t l with
-      | .error err => .error err
-      | .ok (t', l') => runSteps sorted d rest t' l'
+      | none => none
+      | some (t', l') => runSteps sorted d rest t' l'
 
 def tokPath (p : Path) : String := toHexTok (joinPath p)
 
@@ -136,11 +136,11 @@ def step (line : String) : String :=
       | none => "bad-op"
       | some steps =>
         match runSteps (so != 0) d steps (initRoot d) [] with
-        | .error _ => "err"
-        | .ok (t, links) =>
+        | none => "err"
+        | some (t, links) =>
           match postProcess t links with
-          | .error _ => "err"
-          | .ok r => dump r
+          | none => "err"
+          | some r => dump r
     | _, _, _, _, _, _ => "bad-op"
   | "isort" :: names =>
     match names.mapM fromHex with
